@@ -94,7 +94,21 @@ pub fn run_stdout(bin: &PathBuf, tag: &str, file: &[u8], args: &str, timeout: Du
     Ok(RealOut { status: status?, stdout, stderr, lines: vec![] })
 }
 
+/// A port nobody in this process has been given before (atomic counter over a pid-dependent range, checked
+/// by a trial bind). Asking the kernel for an ephemeral port and closing it again hands the same number to two
+/// threads now and then, and then one emulator talks to the other's client.
 pub fn free_port() -> u16 {
+    use std::sync::atomic::{AtomicU32, Ordering};
+    static NEXT: AtomicU32 = AtomicU32::new(0);
+    // 40 disjoint ranges of 1000 ports: concurrently running check processes have neighbouring pids
+    let base = 20000 + (std::process::id() % 40) * 1000;
+    for _ in 0..4096 {
+        let k = NEXT.fetch_add(1, Ordering::SeqCst);
+        let p = (base + (k % 1000)) as u16;
+        if p >= 20000 && std::net::TcpListener::bind(("127.0.0.1", p)).is_ok() {
+            return p;
+        }
+    }
     std::net::TcpListener::bind("127.0.0.1:0").ok().and_then(|l| l.local_addr().ok()).map(|a| a.port()).unwrap_or(23456)
 }
 
